@@ -118,23 +118,27 @@ ApplyOp(o, vs) ==
          [] o = "Difference" -> {c \in vs[1] : \A i \in 2..n : c \notin vs[i]}
          [] OTHER            -> {c \in all : Cardinality({i \in 1..n : c \in vs[i]}) % 2 = 1}  \* Xor
 
-\* one instruction on a value stack of [v, xs]; xs: some Shift carried a bit over Edge
+\* one instruction on a value stack of [v, xs, xn]; xs: some Shift carried a bit over Edge;
+\* xn: the result of such a Shift was consumed by an n-ary operator or Not (the executor
+\* evaluates per shard, so a carried bit is invisible to the operator: known finding)
 StepI(D, ins, st) ==
     LET k == ins[1]
         m == Len(st)
-    IN CASE k = "row"   -> Append(st, [v |-> RowOf(D, ins[2], ins[3]), xs |-> FALSE])
-         [] k = "rowt"  -> Append(st, [v |-> TimeRow(D, ins[3], ins[4], ins[5]), xs |-> FALSE])
-         [] k = "cond"  -> Append(st, [v |-> CondRow(D, ins[6], ins[4], ins[5]), xs |-> FALSE])
-         [] k = "empty" -> Append(st, [v |-> {}, xs |-> FALSE])
+    IN CASE k = "row"   -> Append(st, [v |-> RowOf(D, ins[2], ins[3]), xs |-> FALSE, xn |-> FALSE])
+         [] k = "rowt"  -> Append(st, [v |-> TimeRow(D, ins[3], ins[4], ins[5]), xs |-> FALSE, xn |-> FALSE])
+         [] k = "cond"  -> Append(st, [v |-> CondRow(D, ins[6], ins[4], ins[5]), xs |-> FALSE, xn |-> FALSE])
+         [] k = "empty" -> Append(st, [v |-> {}, xs |-> FALSE, xn |-> FALSE])
          [] k = "op"    -> LET n == ins[4]
                                args == SubSeq(st, m - n + 1, m)
                            IN Append(SubSeq(st, 1, m - n),
                                      [v  |-> ApplyOp(ins[6], [i \in 1..n |-> args[i].v]),
-                                      xs |-> \E i \in 1..n : args[i].xs])
-         [] k = "not"   -> [st EXCEPT ![m] = [v |-> D.ex \ st[m].v, xs |-> st[m].xs]]
+                                      xs |-> \E i \in 1..n : args[i].xs,
+                                      xn |-> \E i \in 1..n : args[i].xs])
+         [] k = "not"   -> [st EXCEPT ![m] = [v |-> D.ex \ st[m].v, xs |-> st[m].xs, xn |-> st[m].xs]]
          [] OTHER       -> LET n == ins[4]                                   \* shift
                            IN [st EXCEPT ![m] = [v  |-> {c + n : c \in st[m].v},
-                                                 xs |-> st[m].xs \/ \E c \in st[m].v : c < Edge /\ c + n >= Edge]]
+                                                 xs |-> st[m].xs \/ \E c \in st[m].v : c < Edge /\ c + n >= Edge,
+                                                 xn |-> st[m].xn]]
 
 RECURSIVE EvalFrom(_, _, _, _)
 EvalFrom(D, prog, i, st) ==
@@ -143,12 +147,12 @@ EvalFrom(D, prog, i, st) ==
 Eval(D, prog) == EvalFrom(D, prog, 1, << >>)[1]       \* [v, xs] of a well-formed program
 
 \* stack entries: [p: program, d: depth, v: value, xs: flag]
-Entry(D, prog, d) == LET e == Eval(D, prog) IN [p |-> prog, d |-> d, v |-> e.v, xs |-> e.xs]
+Entry(D, prog, d) == LET e == Eval(D, prog) IN [p |-> prog, d |-> d, v |-> e.v, xs |-> e.xs, xn |-> e.xn]
 Reval(D, stk)     == [i \in 1..Len(stk) |-> Entry(D, stk[i].p, stk[i].d)]
 
 \* observation of the top of the stack that accompanies every record
-TopObs(stk) == IF stk = << >> THEN [q |-> << >>, qv |-> {}, xs |-> FALSE]
-               ELSE [q |-> stk[Len(stk)].p, qv |-> stk[Len(stk)].v, xs |-> stk[Len(stk)].xs]
+TopObs(stk) == IF stk = << >> THEN [q |-> << >>, qv |-> {}, xs |-> FALSE, xn |-> FALSE]
+               ELSE [q |-> stk[Len(stk)].p, qv |-> stk[Len(stk)].v, xs |-> stk[Len(stk)].xs, xn |-> stk[Len(stk)].xn]
 
 (***************************************************************************)
 (* Rows / GroupBy / MinRow / MaxRow                                        *)
@@ -201,12 +205,12 @@ AllGroups(D, chs, filt) ==
     IN [i \in 1..Len(srt) |-> [g |-> srt[i], n |-> Cardinality(GroupCols(D, chs, filt, srt[i]))]]
 
 \* GroupBy(..., previous tuple prev (or << >>), limit lim, offset off (or -1))
-GroupByRes(D, chs, filt, prev, lim, off) ==
-    LET all   == AllGroups(D, chs, filt)
-        after == IF prev = << >> THEN all
+GroupBySlice(all, prev, lim, off) ==
+    LET after == IF prev = << >> THEN all
                  ELSE SelectSeq(all, LAMBDA e : LexLess(prev, e.g))
         offd  == IF off < 0 THEN after ELSE DropN(after, off)
     IN Take(offd, lim)
+GroupByRes(D, chs, filt, prev, lim, off) == GroupBySlice(AllGroups(D, chs, filt), prev, lim, off)
 
 \* MinRow / MaxRow (field, optional filter program): row id or -1 when no row qualifies
 RowsWithin(D, fld, filt) ==
@@ -252,7 +256,11 @@ Init ==
     /\ cur = NoCur
     /\ cls = "none"
     /\ sub = << >>
-    /\ hist = << >>
+    \* an enumerated initial dataset is the first record of the behaviour (the harness loads it by bulk import)
+    /\ hist = IF InitAll > 0 /\ Mode = "c15"
+                THEN <<[op |-> "init", f1 |-> db.sets["f"][1], g1 |-> db.sets["g"][1],
+                        f2 |-> IF NRows > 1 THEN db.sets["f"][2] ELSE {}, q |-> << >>, qv |-> {}, xs |-> FALSE, xn |-> FALSE]>>
+                ELSE << >>
 
 \* append a record; every record carries the observation of the top of the stack in the post-state
 Log(rec, stk) == hist' = Append(hist, rec @@ TopObs(stk))
@@ -385,10 +393,12 @@ QueryStep(rec) ==
 
 TimeArgs == {ab \in (0..NT) \X (0..(NT + 1)) : (ab[1] # 0 /\ ab[2] # 0) => ab[1] < ab[2]}
 
+RowsSubs == {x \in {"f", "g", "t", "e"} \X ((0 - 1)..(NCols - 1)) \X TimeArgs : x[1] # "t" => x[3] = <<0, 0>>}
+
 RowsQ ==
-    \E fld \in {"f", "g", "t", "e"}, prev \in (0 - 1)..NRows, lim \in {0 - 1, 1, 2}, col \in (0 - 1)..(NCols - 1), ab \in TimeArgs :
-       /\ fld # "t" => ab = <<0, 0>>
-       /\ QueryStep([op |-> "Rows", f |-> fld, prev |-> prev, lim |-> lim, col |-> col, a |-> ab[1], b |-> ab[2],
+    \E prev \in (0 - 1)..NRows, lim \in {0 - 1, 1, 2} :
+       LET fld == sub[1] col == sub[2] ab == sub[3] IN
+          QueryStep([op |-> "Rows", f |-> fld, prev |-> prev, lim |-> lim, col |-> col, a |-> ab[1], b |-> ab[2],
                      rows |-> RowsRes(db, fld, prev, lim, col, ab[1], ab[2])])
 
 \* filters used by GroupBy / MinRow / MaxRow: none, a row, or a small combination
@@ -403,16 +413,20 @@ ChildSeqs ==
     IN {<<x>> : x \in one} \cup {<<x, y>> : x \in one, y \in plain} \cup {<<x, y>> : x \in plain, y \in one}
          \cup {<<x, y, z>> : x \in plain, y \in plain, z \in plain}
 
+PlainChildren(chs) == \A i \in 1..Len(chs) : chs[i].lim < 0 /\ chs[i].col < 0
+
 GroupByQ ==
-    \E lim \in {0 - 1, 1, 2, 3}, off \in {0 - 1, 0, 1, 2, 3} :
-       LET chs == sub[1]
-           filt == sub[2]
-           all == AllGroups(db, chs, filt)
-       IN \E pi \in 0..Len(all) :
+    LET chs == sub[1]
+        filt == sub[2]
+        all == AllGroups(db, chs, filt)
+    IN \E lim \in {0 - 1, 1, 2, 3}, off \in {0 - 1, 0, 1, 2, 3}, pi \in 0..Len(all) :
              LET prev == IF pi = 0 THEN << >> ELSE all[pi].g
              IN /\ (prev # << >>) => (off < 0)          \* previous and offset are alternative paging schemes
+                \* paging by previous is defined for plain child Rows calls only (a child limit /
+                \* column is applied by the code after the child's own previous - undocumented)
+                /\ (prev # << >>) => PlainChildren(chs)
                 /\ QueryStep([op |-> "GroupBy", chs |-> chs, filt |-> filt, prev |-> prev, lim |-> lim, off |-> off,
-                              groups |-> GroupByRes(db, chs, filt, prev, lim, off)])
+                              groups |-> GroupBySlice(all, prev, lim, off)])
 
 MinMaxQ ==
     \E fld \in {"f", "g", "t", "e"}, filt \in Filters :
@@ -422,9 +436,9 @@ MinMaxQ ==
 \* ---- paging loops: the cursor holds the call, the last position and the pages so far
 StartRows ==
     /\ ~cur.on
-    /\    \E fld \in {"f", "g", "t"}, lim \in {1, 2}, col \in {0 - 1, 0, NCols - 1}, ab \in TimeArgs :
-            /\ fld # "t" => ab = <<0, 0>>
-            /\ LET page == RowsRes(db, fld, 0 - 1, lim, col, ab[1], ab[2])
+    /\    \E lim \in {1, 2} :
+            /\ LET fld == sub[1] col == sub[2] ab == sub[3]
+                   page == RowsRes(db, fld, 0 - 1, lim, col, ab[1], ab[2])
                    c == [on |-> TRUE, kind |-> "rows", f |-> fld, lim |-> lim, col |-> col, a |-> ab[1], b |-> ab[2],
                          acc |-> page, last |-> page, n |-> 1]
                IN /\ cur' = c
@@ -437,15 +451,17 @@ StartRows ==
 StartGroup ==
     /\ ~cur.on
     /\    \E lim \in {1, 2, 3}, scheme \in {"previous", "offset"} :
-            LET chs == sub[1]
-                filt == sub[2]
-                page == GroupByRes(db, chs, filt, << >>, lim, IF scheme = "offset" THEN 0 ELSE 0 - 1)
-                c == [on |-> TRUE, kind |-> scheme, chs |-> chs, filt |-> filt, lim |-> lim,
-                      acc |-> page, last |-> page, n |-> 1]
-            IN /\ cur' = c
-               /\ Log([op |-> "PageGroupBy", first |-> TRUE, scheme |-> scheme, chs |-> chs, filt |-> filt, prev |-> << >>,
-                       lim |-> lim, off |-> IF scheme = "offset" THEN 0 ELSE 0 - 1, groups |-> page, done |-> page = << >>,
-                       total |-> AllGroups(db, chs, filt)], << >>)
+            /\ scheme = "previous" => PlainChildren(sub[1])
+            /\ LET chs == sub[1]
+                   filt == sub[2]
+                   all == AllGroups(db, chs, filt)
+                   page == GroupBySlice(all, << >>, lim, IF scheme = "offset" THEN 0 ELSE 0 - 1)
+                   c == [on |-> TRUE, kind |-> scheme, chs |-> chs, filt |-> filt, lim |-> lim,
+                         acc |-> page, last |-> page, n |-> 1]
+               IN /\ cur' = c
+                  /\ Log([op |-> "PageGroupBy", first |-> TRUE, scheme |-> scheme, chs |-> chs, filt |-> filt, prev |-> << >>,
+                          lim |-> lim, off |-> IF scheme = "offset" THEN 0 ELSE 0 - 1, groups |-> page, done |-> page = << >>,
+                          total |-> all], << >>)
     /\ cls' = "none"
     /\ UNCHANGED <<db, stack>>
 
@@ -462,11 +478,12 @@ NextPage ==
                          total |-> RowsRes(db, cur.f, 0 - 1, 0 - 1, cur.col, cur.a, cur.b)], << >>)
          ELSE LET prev == IF cur.kind = "previous" THEN cur.last[Len(cur.last)].g ELSE << >>
                   off  == IF cur.kind = "offset" THEN Len(cur.acc) ELSE 0 - 1
-                  page == GroupByRes(db, cur.chs, cur.filt, prev, cur.lim, off)
+                  all  == AllGroups(db, cur.chs, cur.filt)
+                  page == GroupBySlice(all, prev, cur.lim, off)
               IN /\ cur' = [cur EXCEPT !.acc = @ \o page, !.last = page, !.n = @ + 1]
                  /\ Log([op |-> "PageGroupBy", first |-> FALSE, scheme |-> cur.kind, chs |-> cur.chs, filt |-> cur.filt,
                          prev |-> prev, lim |-> cur.lim, off |-> off, groups |-> page, done |-> page = << >>,
-                         total |-> AllGroups(db, cur.chs, cur.filt)], << >>)
+                         total |-> all], << >>)
     /\ cls' = "none"
     /\ UNCHANGED <<db, stack>>
 
@@ -595,6 +612,8 @@ Act(k)     == IF Mode = "c15" THEN C15Act(k) ELSE IF Mode = "c16" THEN C16Act(k)
 \* C16 GroupBy: the child Rows calls and the filter; C28 writes: the path assignment
 SubChoices(k) ==
     IF Mode = "c16" /\ k \in {"groupby", "startgroup"} THEN ChildSeqs \X Filters
+    ELSE IF Mode = "c16" /\ k = "rows" THEN RowsSubs
+    ELSE IF Mode = "c16" /\ k = "startrows" THEN {x \in RowsSubs : x[1] # "e"}
     ELSE IF Mode = "c28" /\ k \in {"wset", "wmx", "wtime", "wval"} THEN Paths \X KPaths
     ELSE {}
 
